@@ -140,14 +140,17 @@ class C10(core.Property):
         "DistributedRateLimiter and Inductor are not modelled (see final report)",
     ]
     partial_theorems = {
-        "HappyModel.C10.tua_positive_blocks": "proved for an acquire made directly after the time_until_available call "
-        "at any instant t' in [t, t + wait); not extended to runs with further refused acquires / "
-        "time_until_available calls in between (they only refill, but the list version is not proved)",
-        "HappyModel.C10.adaptive_bucket_bound": "bucket bound proved for the largest rate pmax (capacity pmax·window + "
-        "pmax·length) over runs with arbitrary feedback; the sharper 'bound of the current rate' between two rate "
-        "changes is not stated (after a decrease the bucket may still hold tokens earned at the higher rate)",
-        "HappyModel.C10.leaky_spacing / sliding_window_bound / fixed_window_bounds": "stated from a fresh policy "
-        "(token_bucket_bound and adaptive_bucket_bound hold from any state)",
+        "HappyModel.C10.adaptive_credit_bound": "the sharp adaptive bound is stated with the credit the code actually grants "
+        "(AD.credit = sum over try_acquire / time_until_available calls of rate-at-the-call x time-since-the-previous-call): "
+        "admissions*one + tokens_left <= tokens_at_start + credit, from any state, for any operation list; between two rate "
+        "changes it is the bucket bound of the current rate (adaptive_current_rate_bound) and it implies the pmax bound "
+        "(adaptive_credit_le_pmax). The naive form 'capacity + integral of the rate in force at each instant' is NOT a theorem: "
+        "_refill applies the rate in force at the call to the whole time since the previous call, so a record_success just before "
+        "an acquire is credited retroactively (adaptive_naive_integral_bound_false: decided witness, 6 admissions = 240 units "
+        "against capacity(pmax) 80 + integral 20)",
+        "HappyModel.C10.tua_positive_blocks_run": "adaptive policy: the returned wait is honoured up to the next "
+        "record_success / record_failure only (hypothesis NoFeedback; blocksOK's noEarly stops at the feedback record) — a rate "
+        "increase legitimately admits earlier (example in Props.lean); the other four policies carry no such restriction",
     }
     hypotheses = ["Mono: operation times never decrease", "0 < p (rate)", "one ≤ cap (capacity at least one token)",
                   "1 ≤ N", "0 < W", "distinct request ids (entity_exactly_once)"]
@@ -568,6 +571,17 @@ THEOREMS = [
     "HappyModel.C10.adaptive_bucket_bound",
     "HappyModel.C10.tua_zero_admits",
     "HappyModel.C10.tua_positive_blocks",
+    "HappyModel.C10.tua_positive_blocks_run",
+    "HappyModel.C10.tua_blocks_spec",
+    "HappyModel.C10.leaky_spacing_reachable",
+    "HappyModel.C10.leaky_spacing_any_state",
+    "HappyModel.C10.sliding_window_bound_reachable",
+    "HappyModel.C10.fixed_window_bounds_reachable",
+    "HappyModel.C10.policy_hist_reachable",
+    "HappyModel.C10.adaptive_credit_bound",
+    "HappyModel.C10.adaptive_current_rate_bound",
+    "HappyModel.C10.adaptive_credit_le_pmax",
+    "HappyModel.C10.adaptive_naive_integral_bound_false",
     "HappyModel.C10.tua_reaches_admission",
     "HappyModel.C10.entity_exactly_once",
     "HappyModel.C10.entity_exactly_once_spec",
